@@ -197,3 +197,18 @@ func vFrame(n int) (*Vm, []py.Object) {
 	}
 	return &Vm{frame: frame}, toks
 }
+
+// VLog returns a copy of the evaluation log.
+func VLog() []string { return append([]string{}, vLog...) }
+
+// VName names an object for comparison with the oracle.
+func VName(o py.Object) string {
+	switch x := o.(type) {
+	case py.Bool:
+		if x {
+			return "True"
+		}
+		return "False"
+	}
+	return vName(o)
+}
